@@ -172,10 +172,17 @@ def gen_space(rng, dim, p, n0, nref, disparity, truncate, bdspecs, maxlevels):
 
 
 def run(ctx):
-    # private module cache of this check (sub-directory: other checks compile `u*v*dx` too, and the
-    # library's cache is not safe against concurrent builds of the same module, cf. C20)
-    os.environ['XDG_CACHE_HOME'] = os.path.join(ctx.xdg_cache(), 'c03')
-    os.makedirs(os.environ['XDG_CACHE_HOME'], exist_ok=True)
+    # private module cache of this check, keyed by the source digest (own directory: other checks compile
+    # `u*v*dx` too, the library's cache is not safe against concurrent builds of the same module (C20), and
+    # ctx.xdg_cache() of a concurrently running check on another tree removes foreign `xdg-*` directories)
+    import shutil
+    base = os.path.join(VERIF, '.cache'); os.makedirs(base, exist_ok=True)
+    mine = os.path.join(base, 'c03-' + ctx.repo_digest())
+    for e in os.listdir(base):
+        if e.startswith('c03-') and os.path.join(base, e) != mine and REPO == '/repo':
+            shutil.rmtree(os.path.join(base, e), ignore_errors=True)
+    os.makedirs(mine, exist_ok=True)
+    os.environ['XDG_CACHE_HOME'] = mine
     ctx.build_repo()
     quick = ctx.tier == 'quick'
     forms = QUICK_FORMS if quick else ALL_FORMS
